@@ -1,0 +1,118 @@
+//go:build verif
+
+package stringclassifier
+
+// Machine-checked contracts for package stringclassifier (read by
+// /verif/govc; this file contains comments only and is compiled only with
+// build tag verif).
+//
+//@ func max
+//@   inline
+//@ func min
+//@   inline
+//@
+//@ // user supplied normalisation functions: assumed pure
+//@ func typefunc NormalizeFunc
+//@   pure
+//@
+//@ spec okNormalizers(c *Classifier) bool = c != nil && (forall i int :: 0 <= i && i < len(c.normalizers) ==> c.normalizers[i] != nil)
+//@
+//@ func (*Classifier).normalize
+//@   requires okNormalizers(c)
+//@   modifies nothing
+//@   props C13 C14
+//@
+//@ func diffRatio
+//@   modifies nothing
+//@   props C13
+//@
+//@ func diffRangeEnd
+//@   ensures 0 <= end && end <= len(diffs)
+//@   modifies nothing
+//@   loop 1 invariant 0 <= end && end <= len(diffs)
+//@   props C13
+//@
+//@ func unknownTextLength
+//@   ensures result >= 0
+//@   modifies nothing
+//@   loop 1 invariant -1 <= last && last < len(diffs)
+//@   loop 2 invariant 0 <= i && ulen >= 0 && -1 <= last && last < len(diffs)
+//@   props C13
+//@
+//@ func confidencePercentage
+//@   arith bv
+//@   requires 0 <= ulen && 0 <= klen && 0 <= distance
+//@   ensures !isNaN(result) && 0.0 <= result && result <= 1.0
+//@   props C13
+//@
+//@ func levDist
+//@   ensures !isNaN(result) && 0.0 <= result && result <= 1.0
+//@   modifies nothing
+//@   props C13
+//
+// ---------------------------------------------------------------- registration
+// wfC: the classifier's own invariant (what New establishes).
+//@ spec wfC(c *Classifier) bool = okNormalizers(c) && c.values != nil
+//@
+//@ func New
+//@   requires forall i int :: 0 <= i && i < len(funcs) ==> funcs[i] != nil
+//@   ensures fresh(result) && wfC(result)
+//@   modifies nothing
+//@   props C13
+//@
+//@ func (*Classifier).AddValue
+//@   requires wfC(c) && held(&c.muValues) == 0
+//@   ensures wfC(c) && held(&c.muValues) == 0
+//@   access Classifier.values[] read requires held(&c.muValues) >= 1
+//@   access Classifier.values[] write requires held(&c.muValues) == 2
+//@   props C13 C14
+//@
+//@ func (*Classifier).AddPrecomputedValue
+//@   requires wfC(c) && held(&c.muValues) == 0 && set != nil && len(set.Checksums) == len(set.ChecksumRanges) && set.nodes == nil && okRanges(set.ChecksumRanges, len(set.Tokens))
+//@   ensures wfC(c) && held(&c.muValues) == 0
+//@   access Classifier.values[] read requires held(&c.muValues) >= 1
+//@   access Classifier.values[] write requires held(&c.muValues) == 2
+//@   props C13 C14
+//
+// ---------------------------------------------------------------- matching
+// okMatch(x, norm): x is a *Match with a confidence in (0,1] and an
+// Offset/Extent inside the normalised unknown text norm.
+// The queue of a matcher is protected by matcher.mu; its invariant
+// (matcherInv) may be assumed when the mutex is acquired and is checked when
+// it is released. The map Classifier.values is protected by muValues.
+//
+//@ spec okMatchP(p *Match, norm string) bool = p != nil && 0.0 < p.Confidence && p.Confidence <= 1.0 && 0 <= p.Offset && 0 <= p.Extent && p.Offset + p.Extent <= len(norm)
+//@ spec okMatch(x any, norm string) bool = typeis(x, "*Match") && okMatchP(unbox(x, "*Match"), norm)
+//@ spec queueInv(q *pq.Queue, norm string) bool = q != nil && wfHeap(q.heap) && q.heap.setIndex == nil && (forall y any :: member(q.heap, y) ==> okMatch(y, norm))
+//@ spec matcherInv(m *matcher) bool = queueInv(m.queue, m.normUnknown)
+//@ spec wfMatcher(m *matcher) bool = m != nil && m.unknown != nil && wfSS(m.unknown) && okToks(m.unknown.Tokens, m.normUnknown)
+//@ lockinv matcher.mu = matcherInv
+//@
+//@ spec okKnown(k *knownValue) bool = k != nil && k.reValue != nil && (k.set != nil ==> wfSS(k.set))
+//@ spec valuesInv(c *Classifier) bool = c.values != nil && (forall k string :: (k in c.values) ==> okKnown(c.values[k]))
+//@ lockinv Classifier.muValues = valuesInv
+//@
+//@ func newMatcher
+//@   ensures fresh(result) && wfMatcher(result) && matcherInv(result) && result.normUnknown == unknown
+//@   modifies nothing
+//@   props C13 C17
+//@
+//@ func (*matcher).withinConfidenceThreshold
+//@   requires m != nil && known != nil && (forall k int :: 0 <= k && k < len(mr) ==> mr[k] != nil)
+//@   modifies nothing
+//@   props C13
+//@
+//@ func (*matcher).findMatches$1
+//@   requires wfMatcher(m) && known != nil && okGroup(mr, len(m.unknown.Tokens)) && held(&m.mu) == 0
+//@   ensures held(&m.mu) == 0
+//@   callreq Push requires held(&m.mu) == 2
+//@   access matcher.queue read requires true
+//@   props C13 C14 C17
+//@
+//@ func (*matcher).findMatches
+//@   requires wfMatcher(m) && okKnown(known) && known.set != nil && held(&m.mu) == 0
+//@   loop 1 invariant wfMatcher(m) && okKnown(known) && known.set != nil && (mrs == nil || fresh(mrs)) && okGroups(mrs, len(m.unknown.Tokens))
+//@   loop 2 invariant 0 <= start && 0 <= end && wfMatcher(m) && okKnown(known) && known.set != nil && (mrs == nil || fresh(mrs)) && okGroups(mrs, len(m.unknown.Tokens))
+//@   loop 2 invariant 0 <= rangeindex + 1 && start <= rangeindex + 1 && len(a) == 2 && 0 <= a[0] && a[0] <= a[1] && a[1] <= len(m.normUnknown)
+//@   loop 3 invariant wfMatcher(m) && okKnown(known) && known.set != nil && okGroups(mrs, len(m.unknown.Tokens)) && held(&m.mu) == 0
+//@   props C13 C14 C17
